@@ -91,6 +91,13 @@ CLAIMED = {
                      "solver among T / decorated subclass / undecorated subclass / unrelated @symbol class / str, with SYMBOLIC "
                      "constraint values and field values: predicate form, explicit form and the reference are proved equal for "
                      "every valuation."),
+    "C14": dict(design_ref="DESIGN.md 7/C14",
+                text="Bounded exhaustive exploration of HISTORIES driven through the solver (n-way forks + coverage obligation): "
+                     "every sequence of <=4 (5 thorough) operations among concrete construction (keyword / positional / defaults; "
+                     "dataclass, hand-written __init__, undecorated subclass, sub-subclass), symbolic construction, rule inference, "
+                     "registry clearing, declaration of up to two domain-less variables and (re-)evaluation of their queries; each "
+                     "query result is compared by identity with the harness's own log of live instances, and symbolic construction "
+                     "must neither register nor run __init__. No data is involved: the solver adds no generalisation beyond the bound."),
 }
 
 NOT_APPLICABLE = {pid: PENDING for pid in ["C%02d" % i for i in range(1, 21)] if pid not in CLAIMED}
